@@ -11,7 +11,7 @@ fn usage() -> ! {
 
 fn main() {
     let args: Vec<String> = std::env::args().skip(1).collect();
-    if args.is_empty() {
+    if args.is_empty() || args[0] == "--help" {
         usage();
     }
     let id = args[0].clone();
@@ -79,8 +79,8 @@ fn main() {
     ctx.shard = shard;
     ctx.replay = replay;
 
-    // hang journal watchdog (only matters for the checks that publish cases)
-    {
+    // hang journal watchdog (only matters for the checks that publish cases); Miri cannot spawn the re-check process
+    if !cfg!(miri) {
         let id2 = id.clone();
         let tier2 = tier;
         hang::start_watchdog(&id, vec![], move |v| {
